@@ -10,9 +10,11 @@ CONSTANTS MaxN, Reps
 Base == 1700000000
 Shapes == {"log", "count", "sumcount"}
 
-VARIABLES nc, shape, done, hist, pc
-vars == <<nc, shape, done, hist, pc>>
-Init == nc \in 2..MaxN /\ shape \in Shapes /\ done = {} /\ hist = <<>> /\ pc = "start"
+\* tie: every container logs at the same instants, and a log query's limit cuts the first tie group (nc - 1 of its nc
+\* records are returned): WHICH records come back then depends on how ties are broken, which must not be by arrival
+VARIABLES nc, shape, tie, done, hist, pc
+vars == <<nc, shape, tie, done, hist, pc>>
+Init == nc \in 2..MaxN /\ shape \in Shapes /\ tie \in BOOLEAN /\ done = {} /\ hist = <<>> /\ pc = "start"
 
 RECURSIVE Perms(_)
 Perms(S) == IF S = {} THEN {<<>>} ELSE UNION {{<<x>> \o p : p \in Perms(S \ {x})} : x \in S}
@@ -21,15 +23,16 @@ SetToSeq(S) == IF S = {} THEN <<>> ELSE LET x == CHOOSE x \in S : TRUE IN <<x>> 
 APP == <<97, 112, 112>>
 CtrRec(c) == [id |-> <<105, 100, 48 + c>>, name |-> <<110, 48 + c>>, image |-> <<105>>, imageId |-> <<115>>, command |-> <<99>>, created |-> 1,
               state |-> <<114>>, status |-> <<85>>, labels |-> << <<APP, <<97 + (c % 2)>>>>, <<<<116, 105, 101, 114>>, <<120>>>> >>, noName |-> FALSE,
-              frames |-> [j \in 1..2 |-> [typ |-> 1, ts |-> <<Base + 2 * c + j, 0>>, msg |-> <<99, 48 + c, 45, 48 + j>>, raw |-> FALSE]]]
+              frames |-> [j \in 1..2 |-> [typ |-> 1, ts |-> <<IF tie THEN Base + j ELSE Base + 2 * c + j, 0>>, msg |-> <<99, 48 + c, 45, 48 + j>>, raw |-> FALSE]]]
 Case == [in |-> [ctrs |-> [c \in 1..nc |-> CtrRec(c)], sel |-> <<>>, sel2 |-> <<>>, shape |-> shape, start |-> <<Base, 0>>, end |-> <<Base + 60, 0>>,
-                 step |-> 20, range |-> 600, limit |-> 0 - 1, orders |-> SetToSeq(Perms(1..nc)), reps |-> Reps, faults |-> <<>>, listErr |-> FALSE, frag |-> <<>>]]
+                 step |-> 20, range |-> 600, limit |-> IF tie /\ shape = "log" THEN nc - 1 ELSE 0 - 1, orders |-> SetToSeq(Perms(1..nc)), reps |-> Reps, faults |-> <<>>, listErr |-> FALSE, frag |-> <<>>]]
 Export == pc = "start" /\ pc' = "open" /\ UNCHANGED <<nc, shape, done, hist>> /\ PrintT(<<"CASE", ToJson(Case)>>)
-OpenDone(c) == pc = "open" /\ c \in 1..nc /\ c \notin done /\ done' = done \cup {c} /\ hist' = Append(hist, c) /\ UNCHANGED <<nc, shape, pc>>
-Wait == pc = "open" /\ done = 1..nc /\ pc' = "joined" /\ UNCHANGED <<nc, shape, done, hist>>
+           /\ UNCHANGED tie
+OpenDone(c) == pc = "open" /\ c \in 1..nc /\ c \notin done /\ done' = done \cup {c} /\ hist' = Append(hist, c) /\ UNCHANGED <<nc, shape, tie, pc>>
+Wait == pc = "open" /\ done = 1..nc /\ pc' = "joined" /\ UNCHANGED <<nc, shape, tie, done, hist>>
 Next == Export \/ (\E c \in 1..MaxN : OpenDone(c)) \/ Wait
 
 \* every completion order is explored, and the joined state does not remember it
 AllOrdersReachJoin == pc = "joined" => done = 1..nc /\ Len(hist) = nc
-View == <<nc, shape, done, pc>>
+View == <<nc, shape, tie, done, pc>>
 =============================================================================
